@@ -22,7 +22,8 @@ use bitcoin::secp256k1::ecdh::SharedSecret;
 use bitcoin::secp256k1::{PublicKey, Secp256k1, SecretKey};
 use bitcoin::{Network, ScriptBuf};
 use lightning::io;
-use lightning::ln::msgs::{self, BaseMessageHandler, ChannelMessageHandler, DecodeError, Init, LightningError, MessageSendEvent};
+use lightning::ln::msgs::{self, BaseMessageHandler, ChannelMessageHandler, DecodeError, Init, LightningError, MessageSendEvent, OnionMessageHandler, RoutingMessageHandler};
+use lightning::routing::gossip::NodeId;
 use lightning::ln::peer_handler::{CustomMessageHandler, IgnoringMessageHandler, MessageHandler, PeerManager, SocketDescriptor};
 use lightning::ln::types::ChannelId;
 use lightning::ln::verif_hooks::{MessageBuf, PeerChannelEncryptor};
@@ -43,8 +44,9 @@ impl Logger for NullLogger {
 	fn log(&self, _record: Record) {}
 }
 
-/// what the handlers of one node saw, in order: "C" = peer_connected, "X" = peer_disconnected,
-/// "M<hex>" = a message (type bytes + payload) reached a handler
+/// what the handlers of one node saw, in order: "C" = peer_connected on the custom handler ("c" on
+/// the others), "X" = peer_disconnected, "M<hex>" = a message (type bytes + payload) reached a
+/// channel/custom handler, "H:<method>" = a routing/onion handler method was called
 type Log = Arc<Mutex<Vec<String>>>;
 
 #[derive(Debug, Clone, PartialEq)]
@@ -192,9 +194,92 @@ impl BaseMessageHandler for RecChan {
 		InitFeatures::empty()
 	}
 	fn peer_connected(&self, _their_node_id: PublicKey, _msg: &Init, _inbound: bool) -> Result<(), ()> {
+		self.log.lock().unwrap().push("c".to_string());
 		Ok(())
 	}
 }
+
+struct RecRoute {
+	log: Log,
+}
+impl RecRoute {
+	fn h(&self, name: &str) {
+		self.log.lock().unwrap().push(format!("H:{}", name));
+	}
+}
+impl RoutingMessageHandler for RecRoute {
+	fn handle_node_announcement(&self, _n: Option<PublicKey>, _msg: &msgs::NodeAnnouncement) -> Result<bool, LightningError> {
+		self.h("node_announcement");
+		Ok(false)
+	}
+	fn handle_channel_announcement(&self, _n: Option<PublicKey>, _msg: &msgs::ChannelAnnouncement) -> Result<bool, LightningError> {
+		self.h("channel_announcement");
+		Ok(false)
+	}
+	fn handle_channel_update(&self, _n: Option<PublicKey>, _msg: &msgs::ChannelUpdate) -> Result<Option<(NodeId, NodeId)>, LightningError> {
+		self.h("channel_update");
+		Ok(None)
+	}
+	fn get_next_channel_announcement(&self, _s: u64) -> Option<(msgs::ChannelAnnouncement, Option<msgs::ChannelUpdate>, Option<msgs::ChannelUpdate>)> {
+		None
+	}
+	fn get_next_node_announcement(&self, _s: Option<&NodeId>) -> Option<msgs::NodeAnnouncement> {
+		None
+	}
+	fn handle_reply_channel_range(&self, _n: PublicKey, _msg: msgs::ReplyChannelRange) -> Result<(), LightningError> {
+		self.h("reply_channel_range");
+		Ok(())
+	}
+	fn handle_reply_short_channel_ids_end(&self, _n: PublicKey, _msg: msgs::ReplyShortChannelIdsEnd) -> Result<(), LightningError> {
+		self.h("reply_short_channel_ids_end");
+		Ok(())
+	}
+	fn handle_query_channel_range(&self, _n: PublicKey, _msg: msgs::QueryChannelRange) -> Result<(), LightningError> {
+		self.h("query_channel_range");
+		Ok(())
+	}
+	fn handle_query_short_channel_ids(&self, _n: PublicKey, _msg: msgs::QueryShortChannelIds) -> Result<(), LightningError> {
+		self.h("query_short_channel_ids");
+		Ok(())
+	}
+	fn processing_queue_high(&self) -> bool {
+		false
+	}
+}
+struct RecOnion {
+	log: Log,
+}
+impl OnionMessageHandler for RecOnion {
+	fn handle_onion_message(&self, _n: PublicKey, _msg: &msgs::OnionMessage) {
+		self.log.lock().unwrap().push("H:onion_message".to_string());
+	}
+	fn next_onion_message_for_peer(&self, _n: PublicKey) -> Option<msgs::OnionMessage> {
+		None
+	}
+	fn timer_tick_occurred(&self) {}
+}
+macro_rules! base_handler {
+	($t: ty) => {
+		impl BaseMessageHandler for $t {
+			fn get_and_clear_pending_msg_events(&self) -> Vec<MessageSendEvent> {
+				Vec::new()
+			}
+			fn peer_disconnected(&self, _their_node_id: PublicKey) {}
+			fn provided_node_features(&self) -> NodeFeatures {
+				NodeFeatures::empty()
+			}
+			fn provided_init_features(&self, _their_node_id: PublicKey) -> InitFeatures {
+				InitFeatures::empty()
+			}
+			fn peer_connected(&self, _their_node_id: PublicKey, _msg: &Init, _inbound: bool) -> Result<(), ()> {
+				self.log.lock().unwrap().push("c".to_string());
+				Ok(())
+			}
+		}
+	};
+}
+base_handler!(RecRoute);
+base_handler!(RecOnion);
 
 /// scripted socket. `plan` answers `send_data`: None = take everything, Some(k) = take min(k, len).
 struct SockState {
@@ -273,8 +358,8 @@ impl SocketDescriptor for Sock {
 type PM = PeerManager<
 	Sock,
 	Arc<RecChan>,
-	IgnoringMessageHandler,
-	IgnoringMessageHandler,
+	Arc<RecRoute>,
+	Arc<RecOnion>,
 	Arc<NullLogger>,
 	Arc<RecCustom>,
 	Arc<TestNodeSigner>,
@@ -297,8 +382,8 @@ fn mk_node(secret: SecretKey, eph_seed: [u8; 32]) -> Node {
 	let custom = Arc::new(RecCustom { log: log.clone(), pending: Mutex::new(Vec::new()) });
 	let mh = MessageHandler {
 		chan_handler: chan.clone(),
-		route_handler: IgnoringMessageHandler {},
-		onion_message_handler: IgnoringMessageHandler {},
+		route_handler: Arc::new(RecRoute { log: log.clone() }),
+		onion_message_handler: Arc::new(RecOnion { log: log.clone() }),
 		custom_message_handler: custom.clone(),
 		send_only_message_handler: IgnoringMessageHandler {},
 	};
@@ -604,6 +689,15 @@ fn raw(role_in: bool, seed: u64, toks: &[&str]) -> String {
 		Some(s) if !s.is_empty() => s.split(',').map(|f| if f == "-" { vec![] } else { unhex(f) }).collect(),
 		_ => vec![],
 	};
+	// does each plaintext frame decode (so that it reaches the message gate rather than the
+	// decode-error table)?
+	let dec: Vec<String> = frames
+		.iter()
+		.map(|f| match lightning::ln::wire::verif_hooks_wire::wire_read(f) {
+			Ok(d) => format!("\"ok:{}\"", d.type_id),
+			Err((e, _)) => format!("\"err:{}\"", e.replace('"', "'")),
+		})
+		.collect();
 	let secp = Secp256k1::new();
 	let pm_eph = pm_ephemeral(&eph_seed, 0);
 	let mut cv = Curve { pubs: vec![], dhs: vec![], valid: vec![] };
@@ -773,7 +867,7 @@ fn raw(role_in: bool, seed: u64, toks: &[&str]) -> String {
 	// after a caught panic the PeerManager's locks are poisoned
 	let connected = panic::catch_unwind(AssertUnwindSafe(|| node.pm.list_peers().len())).unwrap_or(0);
 	format!(
-		"{{\"mode\":\"raw\",\"role\":{},\"seed\":{},\"pm_secret\":\"{}\",\"pm_eph\":\"{}\",\"h_static\":\"{}\",\"h_static_pub\":\"{}\",\"h_eph\":\"{}\",\"pm_pub\":\"{}\",\"pm_eph_pub\":\"{}\",\"pm_first\":\"{}\",\"pm_act\":\"{}\",\"pubs\":\"{}\",\"dh\":\"{}\",\"valid\":\"{}\",\"piece_lens\":[{}],\"honest_len\":{},\"frags\":[{}],\"obs\":[{}],\"panic\":{},\"peers\":{},\"sock_disconnected\":{}}}",
+		"{{\"mode\":\"raw\",\"role\":{},\"seed\":{},\"pm_secret\":\"{}\",\"pm_eph\":\"{}\",\"h_static\":\"{}\",\"h_static_pub\":\"{}\",\"h_eph\":\"{}\",\"pm_pub\":\"{}\",\"pm_eph_pub\":\"{}\",\"pm_first\":\"{}\",\"pm_act\":\"{}\",\"pubs\":\"{}\",\"dh\":\"{}\",\"valid\":\"{}\",\"piece_lens\":[{}],\"dec\":[{}],\"honest_len\":{},\"frags\":[{}],\"obs\":[{}],\"panic\":{},\"peers\":{},\"sock_disconnected\":{}}}",
 		jstr(if role_in { "in" } else { "out" }),
 		seed,
 		hex(&pm_secret.secret_bytes()),
@@ -789,6 +883,7 @@ fn raw(role_in: bool, seed: u64, toks: &[&str]) -> String {
 		cv.dhs.join(";"),
 		cv.valid.join(";"),
 		piece_lens.iter().map(|x| x.to_string()).collect::<Vec<_>>().join(","),
+		dec.join(","),
 		honest_len,
 		frag_hex.iter().map(|x| jstr(x)).collect::<Vec<_>>().join(","),
 		obs.join(","),
